@@ -4,6 +4,7 @@
 package main
 
 import (
+	"bytes"
 	"fmt"
 	"strconv"
 	"strings"
@@ -179,6 +180,67 @@ func init() {
 					c.do(fmt.Sprintf("ts.text rt %s %d", f, h*int64(time.Hour)+off))
 				}
 			}
+		}
+	}}
+
+	// ts.doc <format> <start end>...: the boundaries of a whole cue list through the format's writer and reader: every
+	// boundary comes back truncated to the format's unit, whatever its neighbours are
+	streams["ts.doc"] = stream{exec: func(a []string) string {
+		s := astisub.NewSubtitles()
+		for i := 1; i+1 < len(a); i += 2 {
+			s.Items = append(s.Items, &astisub.Item{StartAt: time.Duration(atoi64(a[i])), EndAt: time.Duration(atoi64(a[i+1])),
+				Lines: []astisub.Line{{Items: []astisub.LineItem{{Text: "x" + strconv.Itoa(i)}}}}})
+		}
+		if a[0] == "ssa" {
+			s.Metadata = &astisub.Metadata{Title: "t"}
+		}
+		var b bytes.Buffer
+		if err := writeRaw(a[0], s, &b); err != nil {
+			return "werr"
+		}
+		back, err := readWith(a[0], bytes.NewReader(b.Bytes()))
+		if err != nil {
+			return "rerr"
+		}
+		var o []string
+		for _, it := range back.Items {
+			o = append(o, strconv.FormatInt(int64(it.StartAt), 10), strconv.FormatInt(int64(it.EndAt), 10))
+		}
+		return strings.Join(o, " ")
+	}, gen: func(c *ctx) {
+		r := newRng(c.seed, "ts.doc")
+		n := 400
+		if c.thorough {
+			n = 40000
+		}
+		for i := 0; i < n; i++ {
+			f := []string{"srt", "vtt", "ssa", "ttml"}[r.intn(4)]
+			unit := int64(1000000)
+			if f == "ssa" {
+				unit = 10000000
+			}
+			var ts []string
+			t := r.rangeI(0, 3600*1000) * 1000000
+			for k := 1 + r.intn(4); k > 0; k-- {
+				// a cue that ends just below a unit boundary, the next one starting just above it (or on it, or equal)
+				e := (t/unit+1+r.rangeI(0, 300))*unit - r.rangeI(0, 2)*r.rangeI(1, unit-1)
+				if e <= t {
+					e = t + 1
+				}
+				ts = append(ts, strconv.FormatInt(t, 10), strconv.FormatInt(e, 10))
+				switch r.intn(4) {
+				case 0:
+					t = e
+				case 1:
+					t = (e/unit+1)*unit + r.rangeI(0, unit-1)*r.rangeI(0, 1)
+				case 2:
+					t = e + r.rangeI(1, unit-1)
+				default:
+					t = e + r.rangeI(0, 5000)*1000000
+				}
+			}
+			c.do("ts.doc " + f + " " + strings.Join(ts, " "))
+			c.count(f)
 		}
 	}}
 
